@@ -183,6 +183,17 @@ def compute_crop_calendar(
             # Set calendar type to gdd mode
             crop.CalendarType = 2
 
+            # derive the calendar-day stages from the converted calendar right away,
+            # as every later call (in gdd mode) will do
+            return compute_crop_calendar(
+                crop,
+                clock_struct_planting_dates,
+                clock_struct_simulation_start_date,
+                clock_struct_simulation_end_date,
+                clock_struct_time_span,
+                weather_df,
+            )
+
         else:
             crop.CDC = crop.CDC_CD
             crop.CGC = crop.CGC_CD
